@@ -112,7 +112,10 @@ impl<'a> SdesChunk<'a> {
                 ret.items.push(item);
             }
 
-            while offset < data.len() && data[offset] == 0 {
+            // zero fill up to the next 32-bit boundary only: anything
+            // after that belongs to the next chunk
+            let fill_end = pad_to_4bytes(offset).min(data.len());
+            while offset < fill_end && data[offset] == 0 {
                 offset += 1;
             }
         }
